@@ -198,3 +198,23 @@ func (m *marcher) FirstRayCollision(r *model3d.Ray) (model3d.RayCollision, bool)
 	}
 	return model3d.RayCollision{}, false
 }
+
+// want:AXISCMP z against y.
+func DisjointBad(aMin, aMax, bMin, bMax model3d.Coord3D) bool {
+	return aMin.X > bMax.X || aMax.X < bMin.X || aMin.Z > bMax.Y
+}
+
+// clean:AXISCMP
+func DisjointGood(aMin, aMax, bMin, bMax model3d.Coord3D) bool {
+	return aMin.X > bMax.X || aMax.X < bMin.X || aMin.Z > bMax.Z
+}
+
+// silent:AXISCMP the longest axis of one vector.
+func LongestAxis(size model3d.Coord3D) int {
+	if size.X > size.Y && size.X > size.Z {
+		return 0
+	} else if size.Y > size.Z {
+		return 1
+	}
+	return 2
+}
